@@ -10,15 +10,15 @@ CLAIMED = {
  'C03': ('model_checking', 'archmc', 'explicit-state BFS over dict-protocol operation sequences: real archive vs dict reference model',
          'Every operation sequence (to closure / cap) over ~70 operation instances on colliding key triples, on every archive backend, compared step by step with a dict; contents, length and a neighbouring archive re-checked after every step.'),
  'C04': ('model_checking', 'archmc', 'explicit-state BFS of write histories; every state re-read by fresh handles, copies, unpickled handles, another process and after writer exit',
-         'After every transition of the C03 exploration on persistent backends a fresh handle / copy() / pickled handle / separate reader process must see exactly the model; every state is also replayed in a forked writer that _exit()s.'),
+         'After every transition of the C03 exploration on persistent backends a fresh handle / copy() / pickled handle / separate reader process must see exactly the model; every state is also replayed in a forked writer that _exit()s; stores opened by a relative name are additionally re-read after a chdir (same handle, copy, unpickled handle, handle rebuilt from .state).'),
  'C05': ('model_checking', 'cachemc', 'explicit-state BFS on the real decorators with capacity invariant',
          'Capacity invariant checked after every call of every explored history, incl. pre-seeded / bulk-loaded caches and maxsize 0/None passed positionally or by keyword.'),
  'C06': ('model_checking', 'cachemc', 'explicit-state BFS (product with recency/frequency reference model), exhaustive RR chooser',
          'Evicted set compared with a recency list / use counter reference model on every overflowing insertion; RR explored over every choice of random.choice; LRU queue compaction reached through macro events.'),
  'C07': ('model_checking', 'cachemc', 'explicit-state BFS on archived configurations',
-         'Every entry that leaves memory must be in the archive with the same value; every computed and not cleared result stays retrievable; archive entries never change.'),
+         'Every entry that leaves memory must be in the archive with the same value; every computed and not cleared result stays retrievable; archive entries never change; a persistent archive is read through a fresh handle (what has really reached the store).'),
  'C08': ('model_checking', 'syncmc', 'explicit-state BFS over cache/archive/sync/toggle operations vs a two-dict reference model',
-         'BFS to closure (in-memory) or cap (persistent) over cache mutations, direct archive mutations, dump/load/sync with and without keys, archived on/off, open/drop; cache, attached and parked archive contents compared with the model after every step.'),
+         'BFS to closure (in-memory) or cap (persistent) over cache mutations, direct archive mutations, dump/load/sync with and without keys, archived on/off, open/drop; cache, attached and parked archive contents (for persistent archives also as seen by a fresh handle) compared with the model after every step; the dedup key is the product of model and implementation state.'),
  'C09': ('exploration', 'callmc', 'exhaustive enumeration of signature grammar x call forms x keymaps against the interpreter\'s own binding',
          'Complete enumeration of a finite signature x call-form x keymap space; calls the interpreter binds identically must get one key and one evaluation.'),
  'C10': ('exploration', 'callmc', 'exhaustive enumeration of signature grammar x call pairs x information-preserving keymaps',
@@ -28,9 +28,9 @@ CLAIMED = {
  'C12': ('exploration', 'callmc', 'exhaustive enumeration of tol x deep x argument structures x call pairs against an independent rounder',
          'Complete enumeration of a finite structure grammar; equal rounded structures <=> equal keys; the function receives the caller\'s objects; standalone rounding decorators against the same oracle.'),
  'C13': ('fault_enumeration', 'crashmc', 'every crash point and torn-write prefix of every mutating operation, at libc-call granularity (LD_PRELOAD shim), recovery in a fresh process',
-         'Process killed before every file-system call (and after short writes) of every operation x prior state x archive configuration; recovery oracle old-or-new per touched key.'),
+         'Process killed before every file-system call (and after short writes) of every operation x prior state x archive configuration; recovery oracle old-or-new per touched key (composite calls judged at the boundaries of the listed operations they consist of).'),
  'C14': ('model_checking', 'schedmc', 'exhaustive interleaving exploration (iterative preemption bounding) of 2-3 real processes gated at libc file-system calls',
-         'Every schedule up to the preemption bound of real processes sharing one store; oracle: no lost entries, no phantom or torn reads, readers never fail.'),
+         'Every schedule up to the preemption bound of real processes sharing one store; short scenarios with every interleaving; oracle: no lost entries, no phantom or torn reads, readers never fail, an idle process that has finished its operation never keeps a writer out.'),
  'C15': ('model_checking', 'cachemc', 'explicit-state BFS with per-transition statistics oracle',
          'info() delta of every transition compared with the classification (hit/load/miss) derived from the pre-state; clear / keepstats / size / maxsize checked.'),
  'C16': ('model_checking', 'cachemc', 'explicit-state BFS with raising calls; exhaustive enumeration of un-keyable arguments for safe decorators',
